@@ -6,5 +6,5 @@ TIER="${1:-quick}"; PAR="${2:-4}"; GLOB="${3:-*}"
 OUT=$ROOT/.work/matrix; mkdir -p $OUT
 run() { n=$1; p=$(python3 -c "import json;print(json.load(open('$ROOT/seeded/$n/meta.json'))['breaks_property'])"); $ROOT/selftest/run_seeded.sh $n $p $TIER > $OUT/$n.txt 2>&1; }
 export -f run; export ROOT TIER OUT
-(cd $ROOT/seeded && ls -d $GLOB) | xargs -P $PAR -I{} bash -c 'run {}'
-for n in $(cd $ROOT/seeded && ls -d $GLOB | sort); do f=$OUT/$n.txt; r=$(grep -h "^RESULT" $f | tail -1); c=$(grep -h "check=" $f | sed -e 's/.*check=\([^ ;]*\).*/\1/' | sort -u | head -4 | tr '\n' ',' ); echo "$r  [$c]"; done
+(cd $ROOT/seeded && ls -d $GLOB | grep -v RESULTS) | xargs -P $PAR -I{} bash -c 'run {}'
+for n in $(cd $ROOT/seeded && ls -d $GLOB | grep -v RESULTS | sort); do f=$OUT/$n.txt; r=$(grep -h "^RESULT" $f | tail -1); c=$(grep -h "check=" $f | sed -e 's/.*check=\([^ ;]*\).*/\1/' | sort -u | head -4 | tr '\n' ',' ); echo "$r  [$c]"; done
